@@ -316,7 +316,8 @@ def file_cases(rng, n, own, maxlen=60):
         for _f in range(2):
             s = rand_seq(rng, rng.choice(KINDS), rng.randint(1, maxlen))
             w = rng.choice([10, 25, 60])
-            text = (">sp|TEST\n" if rng.random() < 0.5 else "") + "\n".join(s[i:i + w] for i in range(0, len(s), w)) + rng.choice(["", "\n", "*\n"])
+            text = (rng.choice([">sp|TEST\n", ">sp|P00001|TEST_HUMAN variant K->E (charge swap)\n", ">construct 7 => tagged, cleaved\n", ">>nested marker\n", ">\n"])
+                    if rng.random() < 0.5 else "") + "\n".join(s[i:i + w] for i in range(0, len(s), w)) + rng.choice(["", "\n", "*\n"])
             lines += ["parseq %s %s" % (hex6(text), q) for q in own]
         yield Case(lines, {"kind": "object-from-file"})
     # one multi-line file beyond 8 KB
